@@ -317,7 +317,7 @@ func parseSteps(s string) []Step { return []Step{{Op: "parse", S: s}} }
 // ---------------------------------------------------------------- C01
 
 func CheckC01(c *Ctx) {
-	cfg := StreamCfg{Anchors: c.Pick(16, 160), Random: c.Pick(2_000_000, 40_000_000), ValidBias: 10, Cover: true}
+	cfg := StreamCfg{Anchors: c.Pick(16, 300), Random: c.Pick(2_000_000, 100_000_000), ValidBias: 10, Cover: true}
 	RunStream(c, cfg, func(w *Worker, sc StrCase, res *[spec.NVersions]PerVer) {
 		for vi := range res {
 			r := &res[vi]
@@ -381,7 +381,7 @@ func acceptedBy(res *[spec.NVersions]PerVer) []string {
 // ---------------------------------------------------------------- C06
 
 func CheckC06(c *Ctx) {
-	cfg := StreamCfg{Anchors: c.Pick(6, 40), Random: c.Pick(1_500_000, 25_000_000), ValidBias: 70, Cover: true}
+	cfg := StreamCfg{Anchors: c.Pick(6, 60), Random: c.Pick(1_500_000, 80_000_000), ValidBias: 70, Cover: true}
 	type cell struct{ ex, om int64 }
 	RunStream(c, cfg, func(w *Worker, sc StrCase, res *[spec.NVersions]PerVer) {
 		for vi := range res {
@@ -473,7 +473,7 @@ func compactCells(c *Ctx) {
 // ---------------------------------------------------------------- C08
 
 func CheckC08(c *Ctx) {
-	cfg := StreamCfg{Anchors: c.Pick(6, 40), Random: c.Pick(1_500_000, 25_000_000), ValidBias: 75, Cover: true}
+	cfg := StreamCfg{Anchors: c.Pick(6, 60), Random: c.Pick(1_500_000, 80_000_000), ValidBias: 75, Cover: true}
 	RunStream(c, cfg, func(w *Worker, sc StrCase, res *[spec.NVersions]PerVer) {
 		for vi := range res {
 			r := &res[vi]
@@ -568,7 +568,7 @@ func CheckC08(c *Ctx) {
 // ---------------------------------------------------------------- C13
 
 func CheckC13(c *Ctx) {
-	cfg := StreamCfg{Anchors: c.Pick(10, 80), Random: c.Pick(1_500_000, 25_000_000), ValidBias: 35, Cover: true}
+	cfg := StreamCfg{Anchors: c.Pick(10, 120), Random: c.Pick(1_500_000, 80_000_000), ValidBias: 35, Cover: true}
 	RunStream(c, cfg, func(w *Worker, sc StrCase, res *[spec.NVersions]PerVer) {
 		n := 0
 		for vi := range res {
